@@ -186,6 +186,30 @@ _mk_ghost_loop("bad_ghost_invariant_that_only_survives_the_first_iteration",
                lambda v: v.g_ticks == v.i and 0 <= v.i and v.i <= len(v.xs) and v.g_ticks <= 1)
 
 
+import collections
+
+
+class Pair(collections.namedtuple("PairBase", ("left", "right"))):
+  @property
+  def swapped(self):
+    return Pair(self[1], self[0])
+
+
+def pairs(a, c):
+  p = Pair(a, right=c)
+  return (p.left, p.right, tuple(p.swapped), p == Pair(a, c), len(p))
+
+
+@unit(P, target="contracts.self_engine:pairs")
+def namedtuples_with_symbolic_fields(b):
+  """2026-09-25: namedtuple instances (discovery's Link) were out of reach; now real instances whose elements may be terms"""
+  a, c = b.int("a", 0, 9), b.int("c", 0, 9)
+  return Case(pairs, [a, c], raises={}, ensures={
+    "ok_fields_and_property": lambda res: res[0] == a and res[1] == c and res[2] == (c, a) and res[3] is True and res[4] == 2,
+    "bad_swapped_is_the_same": lambda res: res[2] == (a, c),
+  })
+
+
 class Cb(object):
   def m(self):
     return 1
